@@ -31,7 +31,7 @@ def _exc_b(rep, case, e):
 
 class TypedOps(Facet):
     name = "typed_ops"
-    flags = Flags(dependent=True, user_mh=True)
+    flags = Flags(dependent=True, user_mh=True, infeasible=True)
     reps = ("tree", "ge", "sge", "dsge")
 
     def budget(self, tier):
